@@ -30,6 +30,170 @@ Proof.
   apply orb_true_iff in H as [H|H]; apply String.eqb_eq in H; subst; auto.
 Qed.
 
+(* ---- lists ------------------------------------------------------------------------------------------------------ *)
+Lemma nth_error_map' : forall A B (f : A -> B) l i, nth_error (map f l) i = option_map f (nth_error l i).
+Proof. induction l; destruct i; simpl; auto. Qed.
+
+Lemma nth_last : forall A (l : list A) a, nth_error (l ++ [a]) (List.length l) = Some a.
+Proof. intros. rewrite nth_error_app2, Nat.sub_diag by auto. reflexivity. Qed.
+
+Lemma set_nth_length : forall A (l : list A) n x, List.length (set_nth l n x) = List.length l.
+Proof. induction l; destruct n; simpl; auto. Qed.
+
+Lemma set_nth_same : forall A (l : list A) n x, n < List.length l -> nth_error (set_nth l n x) n = Some x.
+Proof. induction l; destruct n; simpl; intros; try lia; auto. apply IHl. lia. Qed.
+
+Lemma set_nth_other : forall A (l : list A) n m x, n <> m -> nth_error (set_nth l n x) m = nth_error l m.
+Proof. induction l; destruct n, m; simpl; intros; try congruence; auto. Qed.
+
+Lemma nth_error_app_old : forall A (l l' : list A) i, i < List.length l -> nth_error (l ++ l') i = nth_error l i.
+Proof. intros. now apply nth_error_app1. Qed.
+
+Lemma spec_fam_fam : forall d, spec_fam d = fam d.
+Proof. now destruct d. Qed.
+
+Lemma family_eqb_eq : forall a b, family_eqb a b = true <-> a = b.
+Proof. intros [] []; simpl; split; congruence. Qed.
+
+(* only re-decorations can touch a cell that exists already *)
+Definition no_redeco (o : op) : bool := match o with ORedecorate _ _ _ => false | _ => true end.
+
+(* the value of the variable, followed through a history as the statement describes the operations *)
+Definition track_env (e : envv) (o : op) : envv :=
+  match o with
+  | OSetenv v => Val v | OUnsetenv => Unset | OEnable => Val "1" | ODisable => Val "0"
+  | _ => e
+  end.
+(* every re-decoration in the history happens while the variable is "0" *)
+Fixpoint redeco_only_disabled (e : envv) (h : list op) : bool :=
+  match h with
+  | [] => true
+  | o :: h' => (no_redeco o || match e with Val s => String.eqb s "0" | Unset => false end)
+               && redeco_only_disabled (track_env e o) h'
+  end.
+
+Definition checked_at (hp : list cell) (a : nat) : bool :=
+  match layers_at hp a with [] => false | _ => true end.
+
+(* pairs (address in the model, identity in the specification) of everything that was given to / returned by a decorator *)
+Definition slots (os : list dobj) (sos : list sobj) : list (nat * nat) :=
+  flat_map (fun p => [(o_given (fst p), so_given (snd p)); (o_res (fst p), so_res (snd p))]) (combine os sos).
+
+Definition slots_ok (hp : list cell) (beh : list (option bool)) (sl : list (nat * nat)) : Prop :=
+  (forall a id, In (a, id) sl -> a < List.length hp /\ id < List.length beh) /\
+  (forall a id b, In (a, id) sl -> nth_error beh id = Some (Some b) -> checked_at hp a = b) /\
+  (forall a id a' id', In (a, id) sl -> In (a', id') sl -> nth_error beh id = Some (Some false) -> a = a' -> id = id').
+
+Lemma slots_ok_incl : forall hp beh sl sl', (forall x, In x sl' -> In x sl) -> slots_ok hp beh sl -> slots_ok hp beh sl'.
+Proof.
+  intros hp beh sl sl' I (A & B & C). split; [|split].
+  - intros; apply A; auto.
+  - intros; eapply B; eauto.
+  - intros; eapply C; eauto.
+Qed.
+
+Lemma layers_at_app_old : forall hp c a, a < List.length hp -> layers_at (hp ++ [c]) a = layers_at hp a.
+Proof. intros. unfold layers_at. now rewrite nth_error_app1. Qed.
+
+Lemma checked_at_app_old : forall hp c a, a < List.length hp -> checked_at (hp ++ [c]) a = checked_at hp a.
+Proof. intros. unfold checked_at. now rewrite layers_at_app_old. Qed.
+
+(* a fresh plain cell / a fresh plain identity *)
+Lemma slots_ok_fresh : forall hp beh sl c, c_layers c = [] -> slots_ok hp beh sl ->
+  slots_ok (hp ++ [c]) (beh ++ [Some false]) ((List.length hp, List.length beh) :: sl).
+Proof.
+  intros hp beh sl c Hc (A & B & C). split; [|split].
+  - intros a id [E|H]; [inversion E; subst|apply A in H]; rewrite !app_length; simpl; lia.
+  - intros a id b [E|H] Hb.
+    + inversion E; subst. rewrite nth_last in Hb. inversion Hb; subst.
+      unfold checked_at, layers_at. now rewrite nth_last, Hc.
+    + pose proof (A _ _ H) as [La Li]. rewrite nth_error_app1 in Hb by auto. rewrite checked_at_app_old by auto. eauto.
+  - intros a id a' id' [E|H] [E'|H'] Hb Ha.
+    + congruence.
+    + inversion E; subst. apply A in H'. lia.
+    + inversion E'; subst. apply A in H. lia.
+    + pose proof (A _ _ H) as [La Li]. rewrite nth_error_app1 in Hb by auto. eauto.
+Qed.
+
+(* the very object comes back: nothing changes *)
+Lemma slots_ok_identity : forall hp beh sl a g, slots_ok hp beh ((a, g) :: sl) ->
+  slots_ok hp beh (sl ++ [(a, g); (a, g)]).
+Proof.
+  intros. eapply slots_ok_incl; [|eassumption].
+  intros x Hx. apply in_app_or in Hx as [Hx|[Hx|[Hx|[]]]]; subst; simpl; auto.
+Qed.
+
+Lemma beh_after_taint : forall (beh : list (option bool)) g id b, id < List.length beh ->
+  nth_error (set_nth beh g None ++ [Some true]) id = Some (Some b) -> id <> g /\ nth_error beh id = Some (Some b).
+Proof.
+  intros beh g id b L Hb. rewrite nth_error_app1 in Hb by now rewrite set_nth_length.
+  destruct (Nat.eq_dec g id) as [->|Ne]; [rewrite set_nth_same in Hb by auto; discriminate|].
+  rewrite set_nth_other in Hb by auto. auto.
+Qed.
+
+Lemma beh_after_taint_new : forall (beh : list (option bool)) g, 
+  nth_error (set_nth beh g None ++ [Some true]) (List.length beh) = Some (Some true).
+Proof.
+  intros. replace (List.length beh) with (List.length (set_nth beh g None)) by apply set_nth_length. apply nth_last.
+Qed.
+
+(* an enabled function decorator: a new function around the given one, which is not touched *)
+Lemma slots_ok_wrap_fn : forall hp beh sl a g c, c_layers c <> [] -> slots_ok hp beh ((a, g) :: sl) ->
+  slots_ok (hp ++ [c]) (set_nth beh g None ++ [Some true]) (sl ++ [(a, g); (List.length hp, List.length beh)]).
+Proof.
+  intros hp beh sl a g c Hc (A & B & C).
+  assert (IN : forall x, In x (sl ++ [(a, g); (List.length hp, List.length beh)]) ->
+               In x ((a, g) :: sl) \/ x = (List.length hp, List.length beh)).
+  { intros x Hx. apply in_app_or in Hx as [Hx|[Hx|[Hx|[]]]]; subst; simpl; auto. }
+  split; [|split].
+  - intros x id H. apply IN in H as [H|E]; [apply A in H|inversion E; subst];
+      rewrite !app_length, set_nth_length; simpl; lia.
+  - intros x id b H Hb. apply IN in H as [H|E].
+    + pose proof (A _ _ H) as [La Li]. apply beh_after_taint in Hb as [Ne Hb]; auto. rewrite checked_at_app_old by auto. eauto.
+    + inversion E; subst. rewrite beh_after_taint_new in Hb. inversion Hb; subst. unfold checked_at, layers_at. rewrite nth_last.
+      destruct (c_layers c); congruence.
+  - intros x id x' id' H H' Hb Hx. apply IN in H as [H|E].
+    + pose proof (A _ _ H) as [La Li]. apply beh_after_taint in Hb as [Ne Hb]; auto.
+      apply IN in H' as [H'|E']; [eauto|]. inversion E'; subst. lia.
+    + inversion E; subst. rewrite beh_after_taint_new in Hb. discriminate.
+Qed.
+
+(* an enabled class decorator: the given class is changed in place *)
+Lemma slots_ok_wrap_cls : forall hp beh sl a g c, c_layers c <> [] -> slots_ok hp beh ((a, g) :: sl) ->
+  slots_ok (set_nth hp a c) (set_nth beh g None ++ [Some true]) (sl ++ [(a, g); (a, List.length beh)]).
+Proof.
+  intros hp beh sl a g c Hc (A & B & C).
+  assert (IN : forall x, In x (sl ++ [(a, g); (a, List.length beh)]) -> In x ((a, g) :: sl) \/ x = (a, List.length beh)).
+  { intros x Hx. apply in_app_or in Hx as [Hx|[Hx|[Hx|[]]]]; subst; simpl; auto. }
+  assert (AG : In (a, g) ((a, g) :: sl)) by now left.
+  pose proof (A _ _ AG) as [LA LG].
+  assert (CH : checked_at (set_nth hp a c) a = true).
+  { unfold checked_at, layers_at. rewrite set_nth_same by auto. destruct (c_layers c); congruence. }
+  split; [|split].
+  - intros x id H. apply IN in H as [H|E]; [apply A in H|inversion E; subst];
+      rewrite !app_length, !set_nth_length; simpl; lia.
+  - intros x id b H Hb. apply IN in H as [H|E].
+    + pose proof (A _ _ H) as [La Li]. apply beh_after_taint in Hb as [Ne Hb]; auto.
+      destruct (Nat.eq_dec a x) as [<-|Nx].
+      * rewrite CH. destruct b; auto. exfalso. apply Ne. eapply C; eauto.
+      * unfold checked_at, layers_at. rewrite set_nth_other by auto. apply (B _ _ _ H Hb).
+    + inversion E; subst. rewrite beh_after_taint_new in Hb. inversion Hb; subst. exact CH.
+  - intros x id x' id' H H' Hb Hx. apply IN in H as [H|E].
+    + pose proof (A _ _ H) as [La Li]. apply beh_after_taint in Hb as [Ne Hb]; auto.
+      apply IN in H' as [H'|E']; [eauto|]. inversion E'; subst. exfalso. apply Ne. eapply C; eauto.
+    + inversion E; subst. rewrite beh_after_taint_new in Hb. discriminate.
+Qed.
+
+Lemma slots_app : forall os sos o so, List.length os = List.length sos ->
+  slots (os ++ [o]) (sos ++ [so]) = slots os sos ++ [(o_given o, so_given so); (o_res o, so_res so)].
+Proof.
+  induction os as [|o' os IH]; intros [|so' sos] o so L; simpl in L; try discriminate; [reflexivity|].
+  unfold slots in *. simpl. rewrite IH by lia. reflexivity.
+Qed.
+
+Lemma Forall2_len : forall A B (R : A -> B -> Prop) l l', Forall2 R l l' -> List.length l = List.length l'.
+Proof. induction 1; simpl; auto. Qed.
+
 Section Good.
   Variable M : switch_model.
   Hypothesis G : good M = true.
@@ -82,107 +246,381 @@ Section Good.
     intros []; try discriminate; auto.
   Qed.
 
-  Lemma call_behaviour_env_independent : forall o e1 e2, call_behaviour M o e1 = call_behaviour M o e2.
-  Proof. intros [x|d x] e1 e2; simpl; [reflexivity|]. rewrite no_call_reads. now destruct (wraps M d). Qed.
-
-  Lemma wrapped_checked : forall d x e, call_behaviour M (Wrapped d x) e = Checked.
+  (* a wrapper that was installed checks, whatever the variable says when it is called *)
+  Lemma layer_checked : forall d e, layer_behaviour M d e = Checked.
   Proof.
-    intros d x e. destruct good_parts as (_ & _ & _ & _ & _ & W & _). simpl. now rewrite W, no_call_reads.
+    intros d e. destruct good_parts as (_ & _ & _ & _ & _ & W & _). unfold layer_behaviour. now rewrite W, no_call_reads.
+  Qed.
+
+  Lemma layers_behaviour_env_independent : forall ws e1 e2, layers_behaviour M ws e1 = layers_behaviour M ws e2.
+  Proof. intros [|d ws] e1 e2; simpl; [reflexivity|]. now rewrite !layer_checked. Qed.
+
+  Lemma layers_behaviour_shape : forall ws e, layers_behaviour M ws e = match ws with [] => Plain | _ => Checked end.
+  Proof. intros [|d ws] e; simpl; [reflexivity|]. now rewrite layer_checked. Qed.
+
+  Lemma cell_behaviour_checked_at : forall s a e,
+    cell_behaviour M s a e = if checked_at (heap s) a then Checked else Plain.
+  Proof.
+    intros. unfold cell_behaviour, checked_at. rewrite layers_behaviour_shape. now destruct (layers_at (heap s) a).
   Qed.
 
   (* applying a decorator under an in-domain value of the variable *)
-  Lemma decorate_dom : forall s d x e, in_domain e = true ->
-    decorate M s d x e = if spec_enabled e then (add_obj s (Wrapped d x), ODeco false) else (add_obj s (Identity x), ODeco true).
+  Lemma decorate_at_dom : forall s d a e, in_domain e = true ->
+    decorate_at M s d a e =
+    if spec_enabled e then wrap s d a else (add_obj s {| o_fam := fam d; o_given := a; o_res := a |}, ODeco true).
   Proof.
-    intros s d x e Hd. destruct good_parts as (IE & _ & _ & HON & _).
-    unfold decorate. rewrite HON, (IE _ Hd). now destruct (spec_enabled e).
+    intros s d a e Hd. destruct good_parts as (IE & _ & _ & HON & _).
+    unfold decorate_at. rewrite HON, (IE _ Hd). now destruct (spec_enabled e).
   Qed.
 
-  Definition tag (o : dobj) : bool := match o with Identity _ => false | Wrapped _ _ => true end.
   Definition rel (s : state) (sp : sstate) : Prop :=
-    env s = s_env sp /\ map tag (objs s) = s_objs sp /\ in_domain (env s) = true /\ List.length (decos s) = s_decos sp.
+    env s = s_env sp /\ in_domain (env s) = true /\ map fst (decos s) = s_decos sp /\
+    Forall2 (fun o so => o_fam o = so_fam so) (objs s) (s_objs sp) /\
+    slots_ok (heap s) (s_beh sp) (slots (objs s) (s_objs sp)).
 
-  Lemma nth_error_map' : forall A B (f : A -> B) l i, nth_error (map f l) i = option_map f (nth_error l i).
-  Proof. induction l; destruct i; simpl; auto. Qed.
-
-  Lemma decorate_refines : forall s sp d x, rel s sp ->
-    rel (fst (decorate M s d x (env s))) (fst (spec_decorate sp)) /\ snd (decorate M s d x (env s)) = snd (spec_decorate sp).
+  (* the decorator is applied to the object at address a / with identity g *)
+  Lemma decorate_on_refines : forall s sp d a g,
+    env s = s_env sp -> in_domain (env s) = true -> map fst (decos s) = s_decos sp ->
+    Forall2 (fun o so => o_fam o = so_fam so) (objs s) (s_objs sp) ->
+    slots_ok (heap s) (s_beh sp) ((a, g) :: slots (objs s) (s_objs sp)) ->
+    rel (fst (decorate_at M s d a (env s))) (fst (spec_decorate_on sp (fam d) g)) /\
+    snd (decorate_at M s d a (env s)) = snd (spec_decorate_on sp (fam d) g).
   Proof.
-    intros s sp d x (He & Ho & Hd & Hk). rewrite (decorate_dom s d x _ Hd). unfold spec_decorate, rel. rewrite <- He.
-    destruct (spec_enabled (env s)); cbn [fst snd add_obj env objs decos s_env s_objs s_decos negb];
-      rewrite map_app, Ho; auto.
+    intros s sp d a g He Hd Hk Hf Hs. rewrite (decorate_at_dom s d a _ Hd). unfold spec_decorate_on. rewrite <- He.
+    pose proof (Forall2_len _ _ _ _ _ Hf) as HL.
+    destruct (spec_enabled (env s)).
+    - unfold wrap. destruct (fam d) eqn:F; cbn [fst snd]; (split; [|reflexivity]); unfold rel;
+        cbn [add_obj alloc env heap objs decos s_env s_beh s_objs s_decos];
+        (split; [auto|split; [auto|split; [auto|split]]]).
+      + apply Forall2_app; auto.
+      + rewrite slots_app by auto. cbn [o_given o_res so_given so_res]. apply slots_ok_wrap_fn; [discriminate|exact Hs].
+      + apply Forall2_app; auto.
+      + rewrite slots_app by auto. cbn [o_given o_res so_given so_res]. apply slots_ok_wrap_cls; [discriminate|exact Hs].
+    - cbn [fst snd]. split; [|reflexivity]. unfold rel; cbn [add_obj env heap objs decos s_env s_beh s_objs s_decos].
+      split; [auto|split; [auto|split; [auto|split]]].
+      + apply Forall2_app; auto.
+      + rewrite slots_app by auto. cbn [o_given o_res so_given so_res]. apply slots_ok_identity. exact Hs.
   Qed.
+
+  Lemma decorate_fresh_refines : forall s sp d b, rel s sp ->
+    rel (fst (decorate_fresh M s d b (env s))) (fst (spec_decorate_fresh sp (fam d))) /\
+    snd (decorate_fresh M s d b (env s)) = snd (spec_decorate_fresh sp (fam d)).
+  Proof.
+    intros s sp d b (He & Hd & Hk & Hf & Hs). unfold decorate_fresh, spec_decorate_fresh.
+    apply (decorate_on_refines (alloc s {| c_layers := []; c_base := b |})
+             {| s_env := s_env sp; s_beh := s_beh sp ++ [Some false]; s_objs := s_objs sp; s_decos := s_decos sp |});
+      cbn [alloc env heap objs decos s_env s_beh s_objs s_decos]; auto.
+    apply slots_ok_fresh; auto.
+  Qed.
+
+  Lemma in_slots : forall os sos i o so, nth_error os i = Some o -> nth_error sos i = Some so ->
+    In (o_given o, so_given so) (slots os sos) /\ In (o_res o, so_res so) (slots os sos).
+  Proof.
+    induction os as [|o' os IH]; intros sos i o so Ho Hso; [destruct i; discriminate|].
+    destruct sos as [|so' sos]; [destruct i; discriminate|].
+    destruct i; simpl in Ho, Hso.
+    - inversion Ho; inversion Hso; subst. unfold slots; simpl. auto.
+    - destruct (IH sos i o so Ho Hso). unfold slots in *; simpl. auto.
+  Qed.
+
+  Lemma Forall2_nth : forall A B (R : A -> B -> Prop) l l' i, Forall2 R l l' ->
+    match nth_error l i, nth_error l' i with
+    | Some x, Some y => R x y
+    | None, None => True
+    | _, _ => False
+    end.
+  Proof.
+    intros A B R l l' i H. revert i. induction H; intros [|i]; simpl; auto. apply IHForall2.
+  Qed.
+
+  Definition obs_meetsb_refl : forall o, obs_meets o o.
+  Proof. intro; now right. Qed.
+
+  Lemma resolve_spec : forall s sp src, rel s sp ->
+    match resolve M s src, spec_src sp src with
+    | Some (d, e), Some d' => d = d' /\ e = env s
+    | None, None => True
+    | _, _ => False
+    end.
+  Proof.
+    intros s sp [d|k] (He & Hd & Hk & _); simpl; [auto|].
+    rewrite <- Hk, nth_error_map'. destruct (nth_error (decos s) k) as [[d e0]|]; simpl; auto.
+    now rewrite no_create_reads.
+  Qed.
+
+  Lemma rel_env : forall s sp e, rel s sp -> in_domain e = true -> rel (with_env s e) (s_with_env sp e).
+  Proof. intros s sp e (He & Hd & Hk & Hf & Hs) De. unfold rel; cbn. auto. Qed.
 
   Lemma step_refines : forall s sp o, rel s sp -> op_in_domain o = true ->
-    rel (fst (step M s o)) (fst (spec_step sp o)) /\ snd (step M s o) = snd (spec_step sp o).
+    rel (fst (step M s o)) (fst (spec_step sp o)) /\ obs_meets (snd (step M s o)) (snd (spec_step sp o)).
   Proof.
-    intros s sp o R Hop. pose proof R as (He & Ho & Hd & Hk).
+    intros s sp o R Hop. pose proof R as (He & Hd & Hk & Hf & Hs).
     destruct good_parts as (IE & EN & DI & HON & _).
+    assert (LIFT : forall (x : state * obs) (y : sstate * obs), rel (fst x) (fst y) /\ snd x = snd y ->
+                   rel (fst x) (fst y) /\ obs_meets (snd x) (snd y)).
+    { intros x y [A B]. split; [exact A|now right]. }
     destruct o; cbn [step spec_step op_in_domain] in *.
-    - unfold rel; cbn; repeat split; auto.
-    - unfold rel; cbn; repeat split; auto.
-    - rewrite EN. unfold rel; cbn; repeat split; auto.
-    - rewrite DI. unfold rel; cbn; repeat split; auto.
-    - apply decorate_refines; exact R.
-    - rewrite <- Ho, nth_error_map'. destruct (nth_error (objs s) i) as [[x|d x]|]; simpl option_map; cbn [tag fst snd];
-        repeat split; auto.
-      now rewrite wrapped_checked.
-    - unfold rel; cbn [fst snd env objs decos s_env s_objs s_decos]. rewrite app_length, Nat.add_1_r. repeat split; auto.
-    - rewrite <- Hk. destruct (Nat.ltb k (List.length (decos s))) eqn:L.
-      + apply Nat.ltb_lt in L. apply nth_error_Some in L. destruct (nth_error (decos s) k) as [[d e0]|]; [|congruence].
-        rewrite no_create_reads. apply decorate_refines; exact R.
-      + apply Nat.ltb_ge in L. apply nth_error_None in L. rewrite L. cbn [fst snd]. split; [exact R|reflexivity].
+    - split; [apply rel_env; auto|now right].
+    - split; [apply rel_env; auto|now right].
+    - rewrite EN. split; [apply rel_env; auto|now right].
+    - rewrite DI. split; [apply rel_env; auto|now right].
+    - apply LIFT. change (spec_fam d) with (fam d). apply decorate_fresh_refines; exact R.
+    - pose proof (Forall2_nth _ _ _ _ _ i Hf) as N.
+      destruct (nth_error (objs s) i) as [o|] eqn:Eo, (nth_error (s_objs sp) i) as [so|] eqn:Eso; try contradiction;
+        cbn [fst snd]; (split; [exact R|]); [|now right].
+      destruct (in_slots _ _ _ _ _ Eo Eso) as [_ IN].
+      destruct (nth_error (s_beh sp) (so_res so)) as [[b|]|] eqn:Eb; try (now left).
+      destruct Hs as (_ & B & _). specialize (B _ _ _ IN Eb).
+      unfold call_behaviour. rewrite cell_behaviour_checked_at, B. right. now destruct b.
+    - split; [|now right]. unfold rel; cbn [fst snd env heap objs decos s_env s_beh s_objs s_decos].
+      rewrite map_app, Hk. auto.
+    - pose proof (resolve_spec s sp (Kept k) R) as RS. cbn [spec_src] in RS.
+      destruct (resolve M s (Kept k)) as [[d e]|], (nth_error (s_decos sp) k) as [d'|]; try contradiction.
+      + destruct RS as [<- ->]. apply LIFT. change (spec_fam d) with (fam d). apply decorate_fresh_refines; exact R.
+      + split; [exact R|now right].
+    - pose proof (Forall2_nth _ _ _ _ _ i Hf) as N. pose proof (resolve_spec s sp src R) as RS.
+      destruct (nth_error (objs s) i) as [o|] eqn:Eo, (nth_error (s_objs sp) i) as [so|] eqn:Eso; try contradiction;
+        [|split; [exact R|now right]].
+      destruct (resolve M s src) as [[d e]|], (spec_src sp src) as [d'|]; try contradiction;
+        [|split; [exact R|now right]].
+      destruct RS as [<- ->]. change (spec_fam d) with (fam d). rewrite <- N.
+      destruct (family_eqb (fam d) (o_fam o)) eqn:F; [|split; [exact R|now right]].
+      apply family_eqb_eq in F. rewrite <- F. apply LIFT.
+      destruct (in_slots _ _ _ _ _ Eo Eso) as [ING INR].
+      destruct again; apply decorate_on_refines; auto; destruct Hs as (A & B & C);
+        (split; [|split]); intros; try (destruct H as [E|H]; [inversion E; subst|]); eauto;
+        try (destruct H0 as [E0|H0]; [inversion E0; subst|]); eauto.
+    - pose proof (Forall2_nth _ _ _ _ _ i Hf) as N. pose proof (resolve_spec s sp src R) as RS.
+      destruct (nth_error (objs s) i) as [o|] eqn:Eo, (nth_error (s_objs sp) i) as [so|] eqn:Eso; try contradiction;
+        [|split; [exact R|now right]].
+      destruct (resolve M s src) as [[d e]|], (spec_src sp src) as [d'|]; try contradiction;
+        [|split; [exact R|now right]].
+      destruct RS as [<- ->]. change (spec_fam d) with (fam d). rewrite <- N.
+      destruct (o_fam o); [split; [exact R|now right]|].
+      destruct (fam d) eqn:F; [split; [exact R|now right]|].
+      apply LIFT. rewrite <- F. apply decorate_fresh_refines; exact R.
   Qed.
 
   Lemma run_refines : forall h s sp, rel s sp -> forallb op_in_domain h = true ->
-    snd (run_ops M s h) = snd (spec_run sp h).
+    Forall2 obs_meets (snd (run_ops M s h)) (snd (spec_run sp h)).
   Proof.
-    induction h as [|o h IH]; intros s sp R Hh; [reflexivity|].
+    induction h as [|o h IH]; intros s sp R Hh; [constructor|].
     simpl in Hh. apply andb_true_iff in Hh as [Ho Hh].
     destruct (step_refines s sp o R Ho) as [R' Hb]. simpl.
     destruct (step M s o) as [s1 b]. destruct (spec_step sp o) as [sp1 b']. simpl in *.
     specialize (IH s1 sp1 R' Hh).
-    destruct (run_ops M s1 h). destruct (spec_run sp1 h). simpl in *. now subst.
+    destruct (run_ops M s1 h). destruct (spec_run sp1 h). simpl in *. now constructor.
   Qed.
 
-  (* objects and decorator objects are only ever appended: no operation alters what exists already *)
-  Lemma decorate_keeps : forall s d x e i o, nth_error (objs s) i = Some o ->
-    nth_error (objs (fst (decorate M s d x e))) i = Some o.
+  Lemma rel_init : forall e, in_domain e = true ->
+    rel {| env := e; heap := []; objs := []; decos := [] |} {| s_env := e; s_beh := []; s_objs := []; s_decos := [] |}.
   Proof.
-    intros s d x e i o H. unfold decorate.
-    destruct (honours M d); [destruct (is_enabled M e) as [[|]|]|]; cbn [fst add_obj objs]; auto;
-      rewrite nth_error_app1; auto; apply nth_error_Some; congruence.
+    intros e He. unfold rel; cbn. split; [auto|split; [auto|split; [auto|split; [constructor|]]]].
+    split; [|split]; intros; contradiction.
+  Qed.
+End Good.
+
+(* ---- what a step can do to the heap, the objects and the kept decorator objects (any model M) ------------------------- *)
+Section Frame.
+  Variable M : switch_model.
+
+  (* every object refers to cells that exist *)
+  Definition wf (s : state) : Prop :=
+    forall i o, nth_error (objs s) i = Some o -> o_given o < List.length (heap s) /\ o_res o < List.length (heap s).
+
+  Lemma decorate_at_cases : forall s d a e,
+    decorate_at M s d a e = (s, ODecoRaise) \/
+    decorate_at M s d a e = (add_obj s {| o_fam := fam d; o_given := a; o_res := a |}, ODeco true) \/
+    decorate_at M s d a e = wrap s d a.
+  Proof.
+    intros. unfold decorate_at. destruct (honours M d); [destruct (is_enabled M e) as [[|]|]|]; auto.
   Qed.
 
-  Lemma decorate_decos : forall s d x e, decos (fst (decorate M s d x e)) = decos s.
+  Ltac dcases s d a e :=
+    destruct (decorate_at_cases s d a e) as [E|[E|E]]; rewrite E; clear E;
+    [|cbn [fst snd add_obj alloc heap objs decos env]
+     |unfold wrap; destruct (fam d); cbn [fst snd add_obj alloc heap objs decos env]].
+
+  Lemma decorate_at_env : forall s d a e,
+    env (fst (decorate_at M s d a e)) = env s /\ decos (fst (decorate_at M s d a e)) = decos s.
+  Proof. intros. dcases s d a e; auto. Qed.
+
+  Lemma decorate_at_len : forall s d a e, List.length (heap s) <= List.length (heap (fst (decorate_at M s d a e))).
+  Proof. intros. dcases s d a e; rewrite ?app_length, ?set_nth_length; simpl; lia. Qed.
+
+  Lemma decorate_at_frame : forall s d a e b, b <> a -> b < List.length (heap s) ->
+    nth_error (heap (fst (decorate_at M s d a e))) b = nth_error (heap s) b.
   Proof.
-    intros s d x e. unfold decorate.
-    destruct (honours M d); [destruct (is_enabled M e) as [[|]|]|]; reflexivity.
+    intros s d a e b Ne L. dcases s d a e; auto.
+    - apply nth_error_app1. exact L.
+    - apply set_nth_other. auto.
   Qed.
 
-  Lemma step_keeps : forall s o i x, nth_error (objs s) i = Some x -> nth_error (objs (fst (step M s o))) i = Some x.
+  Lemma decorate_at_mono : forall s d a e b, b < List.length (heap s) ->
+    exists ws, layers_at (heap (fst (decorate_at M s d a e))) b = ws ++ layers_at (heap s) b.
   Proof.
-    intros s o i x H. destruct o; cbn [step fst with_env objs]; auto.
-    - now apply decorate_keeps.
-    - destruct (nth_error (objs s) i0); auto.
-    - destruct (nth_error (decos s) k) as [[d e0]|]; auto. now apply decorate_keeps.
+    intros s d a e b L. dcases s d a e; try (exists []; reflexivity).
+    - exists []. simpl. now apply layers_at_app_old.
+    - destruct (Nat.eq_dec a b) as [->|Ne].
+      + exists [d]. unfold layers_at at 1. now rewrite set_nth_same.
+      + exists []. unfold layers_at. now rewrite set_nth_other.
+  Qed.
+
+  (* at most one object is added; it was made from the object at a, and what came back exists *)
+  Lemma decorate_at_objs : forall s d a e, a < List.length (heap s) ->
+    objs (fst (decorate_at M s d a e)) = objs s \/
+    exists o, objs (fst (decorate_at M s d a e)) = objs s ++ [o] /\ o_given o = a /\
+              o_res o < List.length (heap (fst (decorate_at M s d a e))).
+  Proof.
+    intros s d a e L. dcases s d a e; auto; right; eexists; (split; [reflexivity|]); cbn [o_given o_res]; split; auto.
+    - rewrite app_length; simpl; lia.
+    - now rewrite set_nth_length.
+  Qed.
+
+  Lemma alloc_frame : forall s c b, b < List.length (heap s) -> nth_error (heap (alloc s c)) b = nth_error (heap s) b.
+  Proof. intros. cbn. now apply nth_error_app1. Qed.
+
+  Definition step_target (s : state) (o : op) : option nat :=
+    match o with
+    | ORedecorate src i again =>
+      match nth_error (objs s) i with Some o' => Some (if again then o_res o' else o_given o') | None => None end
+    | _ => None
+    end.
+
+  (* a step leaves every existing cell alone, except possibly the one a re-decoration is applied to *)
+  Lemma step_frame : forall s o b, b < List.length (heap s) -> step_target s o <> Some b ->
+    nth_error (heap (fst (step M s o))) b = nth_error (heap s) b.
+  Proof.
+    intros s o b L T. destruct o; cbn [step fst with_env heap]; auto.
+    - unfold decorate_fresh. rewrite decorate_at_frame; [now apply alloc_frame|lia|cbn; rewrite app_length; simpl; lia].
+    - destruct (nth_error (objs s) i); auto.
+    - destruct (resolve M s (Kept k)) as [[d e]|]; auto.
+      unfold decorate_fresh. rewrite decorate_at_frame; [now apply alloc_frame|lia|cbn; rewrite app_length; simpl; lia].
+    - cbn [step_target] in T. destruct (nth_error (objs s) i) as [o'|]; auto.
+      destruct (resolve M s src) as [[d e]|]; auto. destruct (family_eqb (fam d) (o_fam o')); auto.
+      apply decorate_at_frame; auto; congruence.
+    - destruct (nth_error (objs s) i) as [o'|]; auto. destruct (resolve M s src) as [[d e]|]; auto.
+      destruct (o_fam o'); auto. destruct (fam d); auto.
+      unfold decorate_fresh. rewrite decorate_at_frame; [now apply alloc_frame|lia|cbn; rewrite app_length; simpl; lia].
+  Qed.
+
+  Lemma step_len : forall s o, List.length (heap s) <= List.length (heap (fst (step M s o))).
+  Proof.
+    intros s o.
+    assert (FR : forall d b e, List.length (heap s) <= List.length (heap (fst (decorate_fresh M s d b e)))).
+    { intros. unfold decorate_fresh. etransitivity; [|apply decorate_at_len]. cbn. rewrite app_length. lia. }
+    destruct o; cbn [step fst with_env heap]; auto.
+    - destruct (nth_error (objs s) i); auto.
+    - destruct (resolve M s (Kept k)) as [[d e]|]; auto.
+    - destruct (nth_error (objs s) i) as [o'|]; auto. destruct (resolve M s src) as [[d e]|]; auto.
+      destruct (family_eqb (fam d) (o_fam o')); auto. apply decorate_at_len.
+    - destruct (nth_error (objs s) i) as [o'|]; auto. destruct (resolve M s src) as [[d e]|]; auto.
+      destruct (o_fam o'); auto. destruct (fam d); auto.
+  Qed.
+
+  (* wrappers are only ever added, outermost *)
+  Lemma step_mono : forall s o b, b < List.length (heap s) ->
+    exists ws, layers_at (heap (fst (step M s o))) b = ws ++ layers_at (heap s) b.
+  Proof.
+    intros s o b L.
+    assert (FR : forall d bs e, exists ws, layers_at (heap (fst (decorate_fresh M s d bs e))) b = ws ++ layers_at (heap s) b).
+    { intros. unfold decorate_fresh.
+      destruct (decorate_at_mono (alloc s {| c_layers := []; c_base := bs |}) d (List.length (heap s)) e b) as [ws E].
+      - cbn. rewrite app_length. lia.
+      - exists ws. rewrite E. cbn [alloc heap]. now rewrite layers_at_app_old. }
+    destruct o; cbn [step fst with_env heap]; try (exists []; reflexivity); auto.
+    - destruct (nth_error (objs s) i); exists []; reflexivity.
+    - destruct (resolve M s (Kept k)) as [[d e]|]; auto. exists []; reflexivity.
+    - destruct (nth_error (objs s) i) as [o'|]; [|exists []; reflexivity].
+      destruct (resolve M s src) as [[d e]|]; [|exists []; reflexivity].
+      destruct (family_eqb (fam d) (o_fam o')); [|exists []; reflexivity]. now apply decorate_at_mono.
+    - destruct (nth_error (objs s) i) as [o'|]; [|exists []; reflexivity].
+      destruct (resolve M s src) as [[d e]|]; [|exists []; reflexivity].
+      destruct (o_fam o'); [exists []; reflexivity|]. destruct (fam d); [exists []; reflexivity|]. auto.
+  Qed.
+
+  (* objects are only ever appended, and refer to cells that exist *)
+  Lemma step_objs : forall s o, wf s ->
+    objs (fst (step M s o)) = objs s \/
+    exists o', objs (fst (step M s o)) = objs s ++ [o'] /\
+               o_given o' < List.length (heap (fst (step M s o))) /\ o_res o' < List.length (heap (fst (step M s o))).
+  Proof.
+    intros s o W.
+    assert (DA : forall s0 d a e, objs s0 = objs s -> a < List.length (heap s0) ->
+              objs (fst (decorate_at M s0 d a e)) = objs s \/
+              exists o', objs (fst (decorate_at M s0 d a e)) = objs s ++ [o'] /\
+                         o_given o' < List.length (heap (fst (decorate_at M s0 d a e))) /\
+                         o_res o' < List.length (heap (fst (decorate_at M s0 d a e)))).
+    { intros s0 d a e EO L. destruct (decorate_at_objs s0 d a e L) as [E|(o' & E & Hg & Hr)]; [left; congruence|].
+      right. exists o'. rewrite E, EO. split; [reflexivity|]. split; [|exact Hr].
+      rewrite Hg. eapply Nat.lt_le_trans; [exact L|apply decorate_at_len]. }
+    assert (FR : forall d b e, objs (fst (decorate_fresh M s d b e)) = objs s \/
+              exists o', objs (fst (decorate_fresh M s d b e)) = objs s ++ [o'] /\
+                         o_given o' < List.length (heap (fst (decorate_fresh M s d b e))) /\
+                         o_res o' < List.length (heap (fst (decorate_fresh M s d b e)))).
+    { intros. unfold decorate_fresh. apply DA; [reflexivity|]. cbn. rewrite app_length; simpl; lia. }
+    destruct o; cbn [step fst with_env objs]; auto.
+    - destruct (nth_error (objs s) i); auto.
+    - destruct (resolve M s (Kept k)) as [[d e]|]; auto.
+    - destruct (nth_error (objs s) i) as [o'|] eqn:Eo; auto. destruct (resolve M s src) as [[d e]|]; auto.
+      destruct (family_eqb (fam d) (o_fam o')); auto. apply DA; [reflexivity|].
+      destruct (W _ _ Eo). now destruct again.
+    - destruct (nth_error (objs s) i) as [o'|]; auto. destruct (resolve M s src) as [[d e]|]; auto.
+      destruct (o_fam o'); auto. destruct (fam d); auto.
+  Qed.
+
+  Lemma step_wf : forall s o, wf s -> wf (fst (step M s o)).
+  Proof.
+    intros s o W i x H. pose proof (step_len s o) as L.
+    destruct (step_objs s o W) as [E|(o' & E & Hg & Hr)]; rewrite E in H.
+    - destruct (W _ _ H). lia.
+    - destruct (Nat.lt_ge_cases i (List.length (objs s))) as [Li|Li].
+      + rewrite nth_error_app1 in H by auto. destruct (W _ _ H). lia.
+      + rewrite nth_error_app2 in H by auto. destruct (i - List.length (objs s)) as [|[|n]]; simpl in H; try discriminate.
+        inversion H; subst. auto.
+  Qed.
+
+  Lemma step_keeps_obj : forall s o i x, wf s -> nth_error (objs s) i = Some x ->
+    nth_error (objs (fst (step M s o))) i = Some x.
+  Proof.
+    intros s o i x W H. destruct (step_objs s o W) as [E|(o' & E & _)]; rewrite E; auto.
+    rewrite nth_error_app1; auto. apply nth_error_Some; congruence.
+  Qed.
+
+  Lemma step_decos : forall s o, decos (fst (step M s o)) = decos s \/ exists c, decos (fst (step M s o)) = decos s ++ [c].
+  Proof.
+    intros s o.
+    assert (FR : forall d b e, decos (fst (decorate_fresh M s d b e)) = decos s).
+    { intros. unfold decorate_fresh. now rewrite (proj2 (decorate_at_env _ _ _ _)). }
+    destruct o; cbn [step fst with_env decos]; eauto.
+    - destruct (nth_error (objs s) i); auto.
+    - destruct (resolve M s (Kept k)) as [[d e]|]; auto.
+    - destruct (nth_error (objs s) i) as [o'|]; auto. destruct (resolve M s src) as [[d e]|]; auto.
+      destruct (family_eqb (fam d) (o_fam o')); auto. left. apply decorate_at_env.
+    - destruct (nth_error (objs s) i) as [o'|]; auto. destruct (resolve M s src) as [[d e]|]; auto.
+      destruct (o_fam o'); auto. destruct (fam d); auto.
   Qed.
 
   Lemma step_keeps_deco : forall s o k c, nth_error (decos s) k = Some c -> nth_error (decos (fst (step M s o))) k = Some c.
   Proof.
-    intros s o k c H. destruct o; cbn [step fst with_env decos]; auto.
-    - now rewrite decorate_decos.
-    - destruct (nth_error (objs s) i); auto.
-    - rewrite nth_error_app1; auto. apply nth_error_Some; congruence.
-    - destruct (nth_error (decos s) k0) as [[d e0]|]; auto. now rewrite decorate_decos.
+    intros s o k c H. destruct (step_decos s o) as [E|[c' E]]; rewrite E; auto.
+    rewrite nth_error_app1; auto. apply nth_error_Some; congruence.
   Qed.
 
-  Lemma run_keeps : forall h s i x, nth_error (objs s) i = Some x ->
+  Lemma run_wf : forall h s, wf s -> wf (fst (run_ops M s h)).
+  Proof.
+    induction h as [|o h IH]; intros s W; [exact W|].
+    simpl. pose proof (step_wf s o W) as W1. destruct (step M s o) as [s1 b]. simpl in W1.
+    specialize (IH s1 W1). destruct (run_ops M s1 h). exact IH.
+  Qed.
+
+  Lemma run_keeps_obj : forall h s i x, wf s -> nth_error (objs s) i = Some x ->
     nth_error (objs (fst (run_ops M s h))) i = Some x.
   Proof.
-    induction h as [|o h IH]; intros s i x H; [exact H|].
-    simpl. pose proof (step_keeps s o i x H) as H1. destruct (step M s o) as [s1 b]. simpl in H1.
-    specialize (IH s1 i x H1). destruct (run_ops M s1 h). exact IH.
+    induction h as [|o h IH]; intros s i x W H; [exact H|].
+    simpl. pose proof (step_keeps_obj s o i x W H) as H1. pose proof (step_wf s o W) as W1.
+    destruct (step M s o) as [s1 b]. simpl in H1, W1.
+    specialize (IH s1 i x W1 H1). destruct (run_ops M s1 h). exact IH.
   Qed.
 
   Lemma run_keeps_deco : forall h s k c, nth_error (decos s) k = Some c ->
@@ -193,69 +631,305 @@ Section Good.
     specialize (IH s1 k c H1). destruct (run_ops M s1 h). exact IH.
   Qed.
 
-  Lemma read_only_at_decoration : forall s i x h1 h2, nth_error (objs s) i = Some x ->
-    snd (step M (fst (run_ops M s h1)) (OCall i)) = snd (step M (fst (run_ops M s h2)) (OCall i)).
+  Lemma run_len : forall h s, List.length (heap s) <= List.length (heap (fst (run_ops M s h))).
   Proof.
-    intros s i x h1 h2 H. simpl.
-    rewrite (run_keeps h1 s i x H), (run_keeps h2 s i x H). simpl. f_equal.
-    apply call_behaviour_env_independent.
+    induction h as [|o h IH]; intros s; [auto|].
+    simpl. pose proof (step_len s o) as H1. destruct (step M s o) as [s1 b]. simpl in H1.
+    specialize (IH s1). destruct (run_ops M s1 h). simpl in *. lia.
   Qed.
 
-  Lemma nth_last : forall A (l : list A) a, nth_error (l ++ [a]) (List.length l) = Some a.
-  Proof. intros. rewrite nth_error_app2, Nat.sub_diag by auto. reflexivity. Qed.
-
-  (* what a freshly decorated object does when called later is fixed by the value e the guard saw *)
-  Lemma decorated_then_called : forall s d x e h, in_domain e = true ->
-    snd (step M (fst (run_ops M (fst (decorate M s d x e)) h)) (OCall (List.length (objs s)))) =
-    OCalled (if spec_enabled e then Checked else Plain).
+  (* a cell that checks keeps checking, whatever happens *)
+  Lemma run_mono : forall h s b, b < List.length (heap s) ->
+    exists ws, layers_at (heap (fst (run_ops M s h))) b = ws ++ layers_at (heap s) b.
   Proof.
-    intros s d x e h Hd.
-    set (o := if spec_enabled e then Wrapped d x else Identity x).
-    assert (E : nth_error (objs (fst (decorate M s d x e))) (List.length (objs s)) = Some o).
-    { rewrite (decorate_dom s d x e Hd). unfold o. destruct (spec_enabled e); cbn [fst add_obj objs]; apply nth_last. }
-    remember (fst (decorate M s d x e)) as s0 eqn:E0. clear E0.
-    cbn [step]. rewrite (run_keeps h _ _ _ E). cbn [snd]. f_equal. unfold o.
-    destruct (spec_enabled e); [apply wrapped_checked|reflexivity].
+    induction h as [|o h IH]; intros s b L; [exists []; reflexivity|].
+    simpl. destruct (step_mono s o b L) as [ws1 H1]. pose proof (step_len s o) as L1.
+    destruct (step M s o) as [s1 x]. simpl in H1, L1.
+    destruct (IH s1 b) as [ws2 H2]; [lia|]. destruct (run_ops M s1 h). simpl in *.
+    exists (ws2 ++ ws1). now rewrite H2, H1, app_assoc.
+  Qed.
+End Frame.
+
+Section Inert.
+  Variable M : switch_model.
+  Hypothesis G : good M = true.
+
+  Lemma step_env : forall s o, env (fst (step M s o)) = track_env (env s) o.
+  Proof.
+    intros s o. destruct (good_parts M G) as (_ & EN & DI & _).
+    assert (FR : forall d b e, env (fst (decorate_fresh M s d b e)) = env s).
+    { intros. unfold decorate_fresh. now rewrite (proj1 (decorate_at_env M _ _ _ _)). }
+    destruct o; cbn [step fst with_env env track_env]; auto.
+    - now rewrite EN.
+    - now rewrite DI.
+    - destruct (nth_error (objs s) i); auto.
+    - destruct (resolve M s (Kept k)) as [[d e]|]; auto.
+    - destruct (nth_error (objs s) i) as [o'|]; auto. destruct (resolve M s src) as [[d e]|]; auto.
+      destruct (family_eqb (fam d) (o_fam o')); auto. apply decorate_at_env.
+    - destruct (nth_error (objs s) i) as [o'|]; auto. destruct (resolve M s src) as [[d e]|]; auto.
+      destruct (o_fam o'); auto. destruct (fam d); auto.
   Qed.
 
-  (* headline: what a decorated object does when called is fixed by the switch at decoration, whatever happens in between *)
-  Lemma behaviour_fixed : forall s d x h, in_domain (env s) = true ->
-    snd (step M (fst (run_ops M (fst (step M s (ODecorate d x))) h)) (OCall (List.length (objs s)))) =
+  Lemma resolve_env : forall s src d e, resolve M s src = Some (d, e) -> e = env s.
+  Proof.
+    intros s [d0|k] d e H; simpl in H; [congruence|].
+    destruct (nth_error (decos s) k) as [[d1 e1]|]; [|discriminate]. rewrite (no_create_reads M G) in H. congruence.
+  Qed.
+
+  (* a re-decoration while the variable is "0" changes no cell *)
+  Lemma step_redeco_disabled : forall s src i again, env s = Val "0"%string ->
+    heap (fst (step M s (ORedecorate src i again))) = heap s.
+  Proof.
+    intros s src i again E. cbn [step]. destruct (nth_error (objs s) i) as [o'|]; auto.
+    destruct (resolve M s src) as [[d e]|] eqn:R; auto. apply resolve_env in R. subst e.
+    destruct (family_eqb (fam d) (o_fam o')); auto.
+    rewrite (decorate_at_dom M G) by (rewrite E; reflexivity). rewrite E. reflexivity.
+  Qed.
+
+  Lemma step_inert : forall s o b, b < List.length (heap s) ->
+    (no_redeco o || match env s with Val v => String.eqb v "0" | Unset => false end) = true ->
+    nth_error (heap (fst (step M s o))) b = nth_error (heap s) b.
+  Proof.
+    intros s o b L H. destruct (no_redeco o) eqn:N.
+    - apply step_frame; auto. destruct o; simpl in *; congruence.
+    - destruct o; try discriminate. simpl in H. destruct (env s) as [|v] eqn:E; [discriminate|].
+      apply String.eqb_eq in H. subst v. now rewrite step_redeco_disabled.
+  Qed.
+
+  Lemma run_inert : forall h s b, b < List.length (heap s) -> redeco_only_disabled (env s) h = true ->
+    nth_error (heap (fst (run_ops M s h))) b = nth_error (heap s) b.
+  Proof.
+    induction h as [|o h IH]; intros s b L H; [reflexivity|].
+    simpl in H. apply andb_true_iff in H as [H1 H2].
+    simpl. pose proof (step_inert s o b L H1) as E1. pose proof (step_len M s o) as L1. pose proof (step_env s o) as V1.
+    destruct (step M s o) as [s1 x]. simpl in E1, L1, V1.
+    rewrite <- V1 in H2. specialize (IH s1 b ltac:(lia) H2). destruct (run_ops M s1 h). simpl in *. congruence.
+  Qed.
+
+  Lemma call_obs : forall s i o, nth_error (objs s) i = Some o ->
+    snd (step M s (OCall i)) = OCalled (if checked_at (heap s) (o_res o) then Checked else Plain).
+  Proof.
+    intros s i o H. cbn [step]. rewrite H. cbn [snd]. unfold call_behaviour. now rewrite (cell_behaviour_checked_at M G).
+  Qed.
+
+  (* toggles, other decorations, calls, sub-classing, and re-decorations made while the variable is "0" are inert *)
+  Lemma inert_call : forall s i o h, wf s -> nth_error (objs s) i = Some o -> redeco_only_disabled (env s) h = true ->
+    snd (step M (fst (run_ops M s h)) (OCall i)) = snd (step M s (OCall i)).
+  Proof.
+    intros s i o h W H R. rewrite (call_obs _ _ _ (run_keeps_obj M h s i o W H)), (call_obs _ _ _ H).
+    destruct (W _ _ H) as [_ L]. unfold checked_at, layers_at. now rewrite (run_inert h s _ L R).
+  Qed.
+
+  (* whatever happens (re-decorations while enabled included), an object that checks keeps checking *)
+  Lemma checked_stays : forall s i o h, wf s -> nth_error (objs s) i = Some o ->
+    snd (step M s (OCall i)) = OCalled Checked -> snd (step M (fst (run_ops M s h)) (OCall i)) = OCalled Checked.
+  Proof.
+    intros s i o h W H C. rewrite (call_obs _ _ _ (run_keeps_obj M h s i o W H)). rewrite (call_obs _ _ _ H) in C.
+    destruct (W _ _ H) as [_ L]. destruct (run_mono M h s _ L) as [ws E].
+    unfold checked_at in *. rewrite E. destruct (layers_at (heap s) (o_res o)); [discriminate|]. now destruct ws.
+  Qed.
+
+  (* the decorator is applied, under an in-domain value of the variable, to the object at address a *)
+  Lemma decorate_at_result : forall s d a, in_domain (env s) = true -> wf s -> a < List.length (heap s) ->
+    let r := decorate_at M s d a (env s) in
+    snd r = ODeco (negb (spec_enabled (env s))) /\ wf (fst r) /\ env (fst r) = env s /\
+    exists o, nth_error (objs (fst r)) (List.length (objs s)) = Some o /\ o_fam o = fam d /\ o_given o = a /\
+              checked_at (heap (fst r)) (o_res o) = (spec_enabled (env s) || checked_at (heap s) a) /\
+              (spec_enabled (env s) = false -> heap (fst r) = heap s /\ o_res o = a).
+  Proof.
+    intros s d a Hd W L r. subst r. rewrite (decorate_at_dom M G) by auto.
+    assert (WF : forall hp' o, List.length (heap s) <= List.length hp' -> o_given o < List.length hp' ->
+                 o_res o < List.length hp' ->
+                 wf {| env := env s; heap := hp'; objs := objs s ++ [o]; decos := decos s |}).
+    { intros hp' o L1 L2 L3 i x H. cbn [objs heap] in *.
+      destruct (Nat.lt_ge_cases i (List.length (objs s))) as [Li|Li].
+      - rewrite nth_error_app1 in H by auto. destruct (W _ _ H). lia.
+      - rewrite nth_error_app2 in H by auto. destruct (i - List.length (objs s)) as [|[|n]]; simpl in H; try discriminate.
+        inversion H; subst. auto. }
+    destruct (spec_enabled (env s)) eqn:En; cbn [negb orb].
+    - unfold wrap. destruct (fam d) eqn:F; cbn [fst snd add_obj alloc env heap objs decos].
+      + split; [reflexivity|]. split; [apply WF; simpl; rewrite ?app_length; simpl; lia|]. split; [reflexivity|].
+        eexists. split; [apply nth_last|]. cbn [o_fam o_given o_res]. repeat split; try discriminate.
+        unfold checked_at, layers_at. now rewrite nth_last.
+      + split; [reflexivity|]. split; [apply WF; simpl; rewrite ?set_nth_length; simpl; lia|]. split; [reflexivity|].
+        eexists. split; [apply nth_last|]. cbn [o_fam o_given o_res]. repeat split; try discriminate.
+        unfold checked_at, layers_at. now rewrite set_nth_same.
+    - cbn [fst snd add_obj env heap objs decos]. split; [reflexivity|]. split; [apply WF; simpl; lia|].
+      split; [reflexivity|]. eexists. split; [apply nth_last|]. cbn [o_fam o_given o_res]. repeat split; reflexivity.
+  Qed.
+
+  Lemma decorate_fresh_result : forall s d b, in_domain (env s) = true -> wf s ->
+    let r := decorate_fresh M s d b (env s) in
+    snd r = ODeco (negb (spec_enabled (env s))) /\ wf (fst r) /\ env (fst r) = env s /\
+    (forall a, a < List.length (heap s) -> nth_error (heap (fst r)) a = nth_error (heap s) a) /\
+    exists o, nth_error (objs (fst r)) (List.length (objs s)) = Some o /\ o_fam o = fam d /\
+              o_given o = List.length (heap s) /\ base_at (heap (fst r)) (o_given o) = b /\
+              checked_at (heap (fst r)) (o_res o) = spec_enabled (env s) /\
+              (spec_enabled (env s) = false -> o_res o = o_given o).
+  Proof.
+    intros s d b Hd W r. subst r. unfold decorate_fresh.
+    set (s0 := alloc s {| c_layers := []; c_base := b |}).
+    assert (W0 : wf s0).
+    { intros i x H. cbn in H. destruct (W _ _ H). cbn. rewrite app_length. simpl. lia. }
+    assert (L0 : List.length (heap s) < List.length (heap s0)) by (cbn; rewrite app_length; simpl; lia).
+    destruct (decorate_at_result s0 d (List.length (heap s)) Hd W0 L0) as (O & W1 & E1 & o & Ho & Hf & Hg & Hc & Hi).
+    change (env s0) with (env s) in *. change (objs s0) with (objs s) in *.
+    split; [exact O|]. split; [exact W1|]. split; [exact E1|]. split.
+    - intros a La. rewrite (decorate_at_frame M) by lia. now apply alloc_frame.
+    - exists o. split; [exact Ho|]. split; [exact Hf|]. split; [exact Hg|]. split; [|split].
+      + rewrite Hg. unfold base_at.
+        assert (BA : forall s1 d1 a1 e1, a1 < List.length (heap s1) ->
+                     base_at (heap (fst (decorate_at M s1 d1 a1 e1))) a1 = base_at (heap s1) a1).
+        { intros s1 d1 a1 e1 La. unfold base_at.
+          destruct (decorate_at_cases M s1 d1 a1 e1) as [E|[E|E]]; rewrite E; clear E; auto.
+          unfold wrap. destruct (fam d1); cbn [fst add_obj alloc heap].
+          - now rewrite nth_error_app1.
+          - rewrite set_nth_same by auto. reflexivity. }
+        fold (base_at (heap (fst (decorate_at M s0 d (List.length (heap s)) (env s)))) (List.length (heap s))).
+        rewrite BA by exact L0. unfold base_at. cbn [s0 alloc heap]. now rewrite nth_last.
+      + rewrite Hc. replace (checked_at (heap s0) (List.length (heap s))) with false; [apply orb_false_r|].
+        unfold checked_at, layers_at. cbn [s0 alloc heap]. now rewrite nth_last.
+      + intro En. destruct (Hi En) as [_ Hr]. congruence.
+  Qed.
+
+  (* a freshly decorated object: what it does when called later is fixed by the value the guard saw - it checks after ANY
+     history if the switch was on; it stays plain after any history whose re-decorations all happen while the variable is "0" *)
+  Lemma fresh_then_called : forall s d b h, in_domain (env s) = true -> wf s ->
+    (spec_enabled (env s) = true \/ redeco_only_disabled (env s) h = true) ->
+    snd (step M (fst (run_ops M (fst (decorate_fresh M s d b (env s))) h)) (OCall (List.length (objs s)))) =
     OCalled (if spec_enabled (env s) then Checked else Plain).
-  Proof. intros s d x h Hd. cbn [step]. now apply decorated_then_called. Qed.
-
-  (* create a decorator object in ANY state, let ANY history pass, apply it: only the value of the variable at the moment of
-     application counts - for the identity of the result and for the behaviour of the result under any later history *)
-  Lemma read_at_application : forall s d h x h',
-    let s1 := fst (step M s (OCreate d)) in
-    let k := List.length (decos s) in
-    let s2 := fst (run_ops M s1 h) in
-    in_domain (env s2) = true ->
-    snd (step M s2 (OApply k x)) = ODeco (negb (spec_enabled (env s2))) /\
-    snd (step M (fst (run_ops M (fst (step M s2 (OApply k x))) h')) (OCall (List.length (objs s2)))) =
-      OCalled (if spec_enabled (env s2) then Checked else Plain).
   Proof.
-    intros s d h x h' s1 k s2 Hd.
-    assert (E : nth_error (decos s2) k = Some (d, env s)).
-    { apply run_keeps_deco. subst s1 k. cbn [step fst decos]. apply nth_last. }
-    clearbody s2. clear s1.
-    cbn [step]. rewrite E, no_create_reads. split.
-    - rewrite (decorate_dom _ _ _ _ Hd). now destruct (spec_enabled (env s2)).
-    - now apply decorated_then_called.
+    intros s d b h Hd W HH.
+    destruct (decorate_fresh_result s d b Hd W) as (_ & W1 & E1 & _ & o & Ho & _ & _ & _ & Hc & _).
+    set (s1 := fst (decorate_fresh M s d b (env s))) in *.
+    assert (C1 : snd (step M s1 (OCall (List.length (objs s)))) = OCalled (if spec_enabled (env s) then Checked else Plain)).
+    { rewrite (call_obs _ _ _ Ho), Hc. reflexivity. }
+    destruct (spec_enabled (env s)) eqn:En.
+    - now apply (checked_stays s1 _ o h W1 Ho).
+    - destruct HH as [HH|HH]; [discriminate|]. rewrite <- C1. apply (inert_call s1 _ o h W1 Ho). now rewrite E1.
+  Qed.
+End Inert.
+
+Section Headlines.
+  Variable M : switch_model.
+  Hypothesis G : good M = true.
+
+  Lemma wf_init : forall e, wf {| env := e; heap := []; objs := []; decos := [] |}.
+  Proof. intros e i o H. destruct i; discriminate. Qed.
+
+  Lemma wf_with_env : forall s e, wf s -> wf (with_env s e).
+  Proof. intros s e W i o H. exact (W i o H). Qed.
+
+  Lemma decorate_fresh_obs : forall s d b e, in_domain e = true ->
+    snd (decorate_fresh M s d b e) = ODeco (negb (spec_enabled e)).
+  Proof.
+    intros. unfold decorate_fresh. rewrite (decorate_at_dom M G) by auto.
+    destruct (spec_enabled e); [|reflexivity]. unfold wrap. now destruct (fam d).
   Qed.
 
   (* when is_enabled cannot raise, a decoration always adds exactly one object, at the next position *)
   Lemma decorate_appends : (forall e, exists b, is_enabled M e = Ok b) ->
-    forall s d x, exists o, nth_error (objs (fst (step M s (ODecorate d x)))) (List.length (objs s)) = Some o.
+    forall s d, exists o, nth_error (objs (fst (step M s (ODecorate d)))) (List.length (objs s)) = Some o.
   Proof.
-    intros T s d x. cbn [step]. unfold decorate. destruct (T (env s)) as [b Hb].
-    destruct (honours M d); [rewrite Hb; destruct b|]; cbn [fst add_obj objs]; rewrite nth_last; eauto.
+    intros T s d. cbn [step]. unfold decorate_fresh, decorate_at. destruct (T (env s)) as [b Hb].
+    destruct (honours M d); [rewrite Hb; destruct b|]; unfold wrap; try destruct (fam d);
+      cbn [fst add_obj alloc objs]; rewrite nth_last; eauto.
   Qed.
 
-  Lemma decorate_obs : forall s d x, in_domain (env s) = true ->
-    step M s (ODecorate d x) =
-    if spec_enabled (env s)
-    then (add_obj s (Wrapped d x), ODeco false)
-    else (add_obj s (Identity x), ODeco true).
-  Proof. intros s d x Hd. cbn [step]. now apply decorate_dom. Qed.
-End Good.
+  Lemma read_only_at_decoration : (forall e, exists b, is_enabled M e = Ok b) -> forall s d h1 h2, wf s ->
+    redeco_only_disabled (env s) h1 = true -> redeco_only_disabled (env s) h2 = true ->
+    let s0 := fst (step M s (ODecorate d)) in
+    let i := List.length (objs s) in
+    snd (step M (fst (run_ops M s0 h1)) (OCall i)) = snd (step M (fst (run_ops M s0 h2)) (OCall i)).
+  Proof.
+    intros T s d h1 h2 W H1 H2 s0 i. destruct (decorate_appends T s d) as [o E]. fold s0 i in E.
+    assert (W0 : wf s0) by now apply step_wf.
+    assert (E0 : env s0 = env s) by (unfold s0; now rewrite (step_env M G)).
+    rewrite (inert_call M G s0 i o h1 W0 E) by now rewrite E0.
+    rewrite (inert_call M G s0 i o h2 W0 E) by now rewrite E0. reflexivity.
+  Qed.
+
+  Lemma behaviour_fixed : forall s d h, in_domain (env s) = true -> wf s ->
+    (spec_enabled (env s) = true \/ redeco_only_disabled (env s) h = true) ->
+    snd (step M (fst (run_ops M (fst (step M s (ODecorate d))) h)) (OCall (List.length (objs s)))) =
+    OCalled (if spec_enabled (env s) then Checked else Plain).
+  Proof. intros s d h Hd W HH. cbn [step]. now apply fresh_then_called. Qed.
+
+  (* create a decorator object in ANY state, let ANY history pass, apply it: only the value of the variable at the moment of
+     application counts - for the identity of the result and for the behaviour of the result under later histories *)
+  Lemma read_at_application : forall s d h h', wf s ->
+    let s1 := fst (step M s (OCreate d)) in
+    let k := List.length (decos s) in
+    let s2 := fst (run_ops M s1 h) in
+    in_domain (env s2) = true ->
+    (spec_enabled (env s2) = true \/ redeco_only_disabled (env s2) h' = true) ->
+    snd (step M s2 (OApply k)) = ODeco (negb (spec_enabled (env s2))) /\
+    snd (step M (fst (run_ops M (fst (step M s2 (OApply k))) h')) (OCall (List.length (objs s2)))) =
+      OCalled (if spec_enabled (env s2) then Checked else Plain).
+  Proof.
+    intros s d h h' W s1 k s2 Hd HH.
+    assert (E : nth_error (decos s2) k = Some (d, env s)).
+    { apply run_keeps_deco. subst s1 k. cbn [step fst decos]. apply nth_last. }
+    assert (W2 : wf s2).
+    { apply run_wf. subst s1. intros i o H. exact (W i o H). }
+    clearbody s2. clear s1.
+    cbn [step resolve]. rewrite E, (no_create_reads M G). split.
+    - now apply decorate_fresh_obs.
+    - now apply fresh_then_called.
+  Qed.
+
+  (* a decorator is applied to an object that went through a decorator before *)
+  Lemma redecoration : forall s src i (again : bool) o d e, in_domain (env s) = true -> wf s ->
+    nth_error (objs s) i = Some o -> resolve M s src = Some (d, e) -> fam d = o_fam o ->
+    let a := if again then o_res o else o_given o in
+    let r := step M s (ORedecorate src i again) in
+    let n := List.length (objs s) in
+    snd r = ODeco (negb (spec_enabled (env s))) /\
+    (spec_enabled (env s) = false ->
+       heap (fst r) = heap s /\ nth_error (objs (fst r)) n = Some {| o_fam := fam d; o_given := a; o_res := a |}) /\
+    (forall h, spec_enabled (env s) = true -> snd (step M (fst (run_ops M (fst r) h)) (OCall n)) = OCalled Checked) /\
+    (forall h, spec_enabled (env s) = false -> redeco_only_disabled (env s) h = true ->
+       snd (step M (fst (run_ops M (fst r) h)) (OCall n)) = OCalled (cell_behaviour M s a (env s))).
+  Proof.
+    intros s src i again o d e Hd W Ho R F a r n.
+    pose proof (resolve_env M G _ _ _ _ R) as ->.
+    assert (La : a < List.length (heap s)) by (destruct (W _ _ Ho); subst a; now destruct again).
+    assert (Er : r = decorate_at M s d a (env s)).
+    { subst r. cbn [step]. rewrite Ho, R. apply family_eqb_eq in F. now rewrite F. }
+    destruct (decorate_at_result M G s d a Hd W La) as (O & W1 & E1 & o1 & Ho1 & Hf1 & Hg1 & Hc1 & Hi1).
+    rewrite <- Er in *. fold n in Ho1.
+    split; [exact O|]. split; [|split].
+    - intro En. destruct (Hi1 En) as [Hh Hr]. split; [exact Hh|]. rewrite Ho1. f_equal.
+      destruct o1; cbn in *; congruence.
+    - intros h En. apply (checked_stays M G (fst r) n o1 h W1 Ho1). rewrite (call_obs M G _ _ _ Ho1), Hc1, En. reflexivity.
+    - intros h En RD. rewrite (inert_call M G (fst r) n o1 h W1 Ho1) by now rewrite E1.
+      rewrite (call_obs M G _ _ _ Ho1), Hc1, En. cbn [orb]. now rewrite (cell_behaviour_checked_at M G).
+  Qed.
+
+  (* a fresh subclass of an object that went through a decorator (at whatever state of the switch) is decorated *)
+  Lemma subclass_decoration : forall s src i o d e, in_domain (env s) = true -> wf s ->
+    nth_error (objs s) i = Some o -> o_fam o = FCls -> resolve M s src = Some (d, e) -> fam d = FCls ->
+    let r := step M s (OSubDecorate src i) in
+    let n := List.length (objs s) in
+    snd r = ODeco (negb (spec_enabled (env s))) /\
+    (forall a, a < List.length (heap s) -> nth_error (heap (fst r)) a = nth_error (heap s) a) /\
+    (exists o', nth_error (objs (fst r)) n = Some o' /\ base_at (heap (fst r)) (o_given o') = Some (o_res o) /\
+                (spec_enabled (env s) = false -> o_res o' = o_given o') /\
+                forall e', inherited_behaviour M (fst r) (o_given o') e' = Some (cell_behaviour M s (o_res o) e')) /\
+    (forall h, spec_enabled (env s) = true \/ redeco_only_disabled (env s) h = true ->
+       snd (step M (fst (run_ops M (fst r) h)) (OCall n)) = OCalled (if spec_enabled (env s) then Checked else Plain)).
+  Proof.
+    intros s src i o d e Hd W Ho Fo R Fd r n.
+    pose proof (resolve_env M G _ _ _ _ R) as ->.
+    assert (Er : r = decorate_fresh M s d (Some (o_res o)) (env s)).
+    { subst r. cbn [step]. now rewrite Ho, R, Fo, Fd. }
+    destruct (decorate_fresh_result M G s d (Some (o_res o)) Hd W) as (O & W1 & E1 & FR & o1 & Ho1 & Hf1 & Hg1 & Hb1 & Hc1 & Hi1).
+    rewrite <- Er in *. fold n in Ho1.
+    split; [exact O|]. split; [exact FR|]. split.
+    - exists o1. split; [exact Ho1|]. split; [exact Hb1|]. split; [exact Hi1|].
+      intro e'. unfold inherited_behaviour. unfold base_at in Hb1.
+      destruct (nth_error (heap (fst r)) (o_given o1)) as [[ls [b|]]|]; cbn in Hb1; try discriminate.
+      inversion Hb1; subst b. f_equal. unfold cell_behaviour, layers_at. destruct (W _ _ Ho) as [_ L]. now rewrite (FR _ L).
+    - intros h HH. rewrite Er. now apply fresh_then_called.
+  Qed.
+End Headlines.
